@@ -100,6 +100,18 @@ class EPModel(KModel):
             return same if op == 'eq' else (not same)
         if isinstance(a, Num) and isinstance(b, Num) and a.r == b.r:
             return {'eq': True, 'le': True, 'ge': True, 'ne': False, 'lt': False, 'gt': False}[op]
+        if isinstance(a, Num) and isinstance(b, Num) and self.scn.get('axis_class') and {str(a.r), str(b.r)} >= {'nr'}:
+            # inside slice_each_axis: the axis number against the number of query axes - query axes come first
+            other = b if str(a.r) == 'nr' else a
+            if other.r == self.qdim.ndim():
+                is_query = self.scn['axis_class'] == 'query'
+                o = op if str(a.r) == 'nr' else {'lt': 'gt', 'le': 'ge', 'gt': 'lt', 'ge': 'le', 'eq': 'eq', 'ne': 'ne'}[op]
+                if o == 'lt':
+                    return is_query
+                if o == 'ge':
+                    return not is_query
+        if isinstance(a, Num) and isinstance(b, Num) and getattr(self, 'loop_counter', None) and str(a.r) == self.loop_counter and b.const() == 0 and op == 'gt':
+            return True       # the inductive step of a counting loop runs under its condition
         return super().compare(op, a, b, e)
 
     def _refine(self, a, b):
@@ -408,6 +420,53 @@ class EPModel(KModel):
             out.d['ones'] = acc.d['ones'] + trip * delta
             return out
         raise Unsupported("fold over a range whose accumulator is not a view losing unit axes", e)
+
+    def plain_loop(self, body, frame, e):
+        """`while counter > 0 { view = view.index_axis_move(..); counter -= 1 }`: one inductive step, the unit-axis counters of the views
+        extrapolated over the trip count (the counter's value on entry)"""
+        cands, views = {}, {}
+        f = frame
+        while f is not None:
+            for k, v in f.vars.items():
+                if isinstance(v, Num) and k not in cands:
+                    cands[k] = (f, v)
+                if isinstance(v, Obj) and v.kind == 'view' and v.d.get('lead') == 'qidx-unit' and k not in views:
+                    views[k] = (f, v)
+            f = f.parent
+        if not cands or not views:
+            raise Unsupported("loop (the rules never unroll loops; this one is not a counting loop over views)", e)
+        entry = {k: v for k, (f, v) in cands.items()}
+        for k, (f, v) in cands.items():
+            f.vars[k] = Num(Rat.atom('loopc:' + k))
+        changed = []
+        for k in cands:
+            self.loop_counter = 'loopc:' + k
+            lf = Frame(frame)
+            try:
+                self.interp.eval(body, lf)
+            except BreakEx:
+                for k2, (f2, v2) in cands.items():
+                    f2.vars[k2] = entry[k2]
+                continue
+            finally:
+                self.loop_counter = None
+            now = cands[k][0].vars[k]
+            if isinstance(now, Num) and (now.r - Rat.atom('loopc:' + k)) == Rat.const(-1):
+                changed.append(k)
+                break
+            raise Unsupported("loop whose counter does not step by -1", e)
+        if len(changed) != 1:
+            raise Unsupported("loop without a single counter", e)
+        k = changed[0]
+        trip = entry[k].r
+        for kk, (f, v) in cands.items():
+            f.vars[kk] = entry[kk] if kk != k else Num(0)
+        for vk, (f, v0) in views.items():
+            v1 = f.vars[vk]
+            if isinstance(v1, Obj) and v1.kind == 'view':
+                delta = v1.d['ones'] - v0.d['ones']
+                v1.d['ones'] = v0.d['ones'] + trip * delta
+        return Unit()
 
     def for_loop(self, iterable, pat, body, frame, e):
         it = deref_all(iterable)
